@@ -415,6 +415,8 @@ class DependsWorld:
         def gen_dep():
             d = rng.randint(1, depth)
             path = [rng.choice(slots) for _ in range(d)]
+            if rng.random() < 0.1:
+                return path[0]          # the attached object itself (besides, possibly, something reached through it)
             if rng.random() < 0.12:
                 return '.'.join(path) + '.param'
             return '.'.join(path) + '.' + rng.choice(leafs)
@@ -535,6 +537,8 @@ class DependsWorld:
 
         def resolve(dep):
             parts = dep.split('.')
+            if len(parts) == 1:
+                return f"OBJ:{att[('P', parts[0])]}"        # a direct dependency on the slot: the attached object itself
             cur = 'P'
             for sl in parts[:-1]:
                 cur = att[(cur, sl)]
@@ -739,6 +743,9 @@ class DependsWorld:
                         if any(x == 'UNRESOLVED' for x in list(b) + list(md) + list(a)) or any(isinstance(x, tuple) for x in list(b) + list(a)):
                             out.stats['dontcare.path_unresolved'] += 1
                             continue
+                        if h == 'P' and any(isinstance(x, str) and x.startswith('OBJ:') and x == y for x, y in zip(md, a)):
+                            out.stats['dontcare.same_object_reassigned_to_directly_watched_slot'] += 1
+                            continue
                         c1, c2 = b != md, md != a
                         if c1 and c2:
                             continue        # two separate changes, one of them deferred: once or twice
@@ -783,6 +790,12 @@ class DependsWorld:
                                                              for x, y in zip(b, a)):
                     # '...param' over nodes that themselves hold a node: equality of Parameterized values is unspecified
                     out.stats['dontcare.param_dep_over_node_valued_parameter'] += 1
+                    continue
+                if k in ('attach', 'swap2', 'swap_twice', 'detach') and holder(op['at']) == 'P' and any(
+                        isinstance(x, str) and x.startswith('OBJ:') and x == y for x, y in zip(b, a)):
+                    # a slot the method depends on directly was (possibly) re-assigned the object it already held: whether that
+                    # counts as a change is the changes-only rule for values of an unlisted type, which is left open
+                    out.stats['dontcare.same_object_reassigned_to_directly_watched_slot'] += 1
                     continue
                 changed = (any(x != y for x, y in zip(b, a) if x != 'UNRESOLVED' and y != 'UNRESOLVED') or
                            (own_changed and m.get('own')))
